@@ -92,7 +92,7 @@ def ChannelId.Valid : ChannelId → Prop
   | .fpn n => 1 ≤ n ∧ n ≤ 4
   | .pad n => 1 ≤ n ∧ n ≤ 72
 
-instance (c : ChannelId) : Decidable c.Valid := by
+instance ChannelId.decValid (c : ChannelId) : Decidable c.Valid := by
   cases c <;> unfold ChannelId.Valid <;> infer_instance
 
 /-- On 1..=79 the conversion succeeds, never underflows, yields an existing id and
